@@ -59,4 +59,12 @@ impl<H: Host> Emulator<H> {
     pub fn verif_frames_count(&self) -> usize {
         self.controller.frames_count()
     }
+
+    /// Advances the sound generator of the AY chip by one internal tick and returns its state
+    /// (tone/noise/envelope counters and the pre-filter output), as the register writes that
+    /// went through the ports have left it
+    #[cfg(feature = "ay")]
+    pub fn verif_ay_raw_tick(&mut self) -> aym::VerifRawTick {
+        self.controller.mixer.ay.verif_raw_tick()
+    }
 }
